@@ -20,18 +20,6 @@ structure AllS (F : FloatOps) (n : Nat) : Prop where
 syntax "ssz" : tactic
 macro_rules | `(tactic| ssz) => `(tactic| (simp at *; omega))
 
-theorem declF_inv {B : List String} {tok : Nat}
-    {specs : List (Option Nat × List (Pos × String) × List (Option Expr))} (h : declF B tok specs = true) :
-    (∃ iota ipos x e, specs = [(iota, [(ipos, x)], [some e])] ∧ ExprF (bnd B) e = true ∧ tok = tVar ∧ x ≠ "_") ∨
-    (∃ iota ipos x, specs = [(iota, [(ipos, x)], [])] ∧ tok = tVar ∧ x ≠ "_") := by
-  unfold declF at h
-  split at h
-  · simp only [Bool.and_eq_true] at h
-    exact .inl ⟨_, _, _, _, rfl, h.1.1, by simpa using h.1.2, by simpa using h.2⟩
-  · simp only [Bool.and_eq_true] at h
-    exact .inr ⟨_, _, _, rfl, by simpa using h.1, by simpa using h.2⟩
-  · cases h
-
 theorem condF_split {B : List String} {c : Expr} (h : condF B c = true) (ht : ¬ isTrueLit c = true)
     (hf : ¬ isFalseLit c = true) : ExprF (bnd B) c = true ∧ isBoolLit c = false := by
   have h2 : (ExprF (bnd B) c && !isBoolLit c) = true := by simpa [condF, ht, hf] using h
@@ -176,14 +164,11 @@ theorem step_stmt {F : FloatOps} {n : Nat} (ih : AllS F n) (st : Stmt) (hsz : si
                   exact good_compound F B pos p x r tok op hr (by simpa using hk.2) hop
             | _ => cases h
   | declValue pos tok specs =>
-    have h' : declF B tok specs = true := h
-    rcases declF_inv h' with ⟨iota, ipos, x, e, rfl, h1, rfl, h3⟩ | ⟨iota, ipos, x, rfl, rfl, h3⟩
-    · have e1 : defsOf B (.declValue pos tVar [(iota, [(ipos, x)], [some e])]) = x :: B := rfl
-      rw [e1]
-      exact good_varDecl F B pos ipos iota x e h1 h3
-    · have e1 : defsOf B (.declValue pos tVar [(iota, [(ipos, x)], [])]) = x :: B := rfl
-      rw [e1]
-      exact good_varDecl0 F B pos ipos iota x h3
+    have h' : (tok == tVar && !specs.isEmpty && specsF B specs) = true := h
+    simp only [Bool.and_eq_true, Bool.not_eq_true'] at h'
+    have ht : tok = tVar := by simpa using h'.1.1
+    subst ht
+    exact good_varGroup F B pos specs h'.1.2 h'.2
   | incdec pos tok tp e =>
     cases e with
     | ident p x =>
